@@ -15,62 +15,100 @@ from .src import arg_names, unparse, walk_stmts
 
 
 class Defs:
+    """Reaching definitions of local names (straight-line approximation).
+
+    Every plain assignment is recorded with its line and the line ranges of the compound-statement bodies that
+    enclose it.  A use at line L resolves to the latest assignment before L whose enclosing bodies all contain L
+    (i.e. the assignment dominates the use in structured code without loops re-entering).  Names that are
+    augmented-assigned, or whose latest candidate sits in a branch not containing the use, stay opaque."""
+
     def __init__(self, fn, extra_scopes=()):
         self.fn = fn
         self.params = set(arg_names(fn)) | {a.arg for a in fn.args.kwonlyargs}
-        self.defs = {}
+        self.all = {}  # name -> [(line, ranges, record)]
         self.multi = set()
         self.loopvars = {}
-        scopes = [fn] + list(extra_scopes)
-        for scope in scopes:
+        for scope in [fn] + list(extra_scopes):
             self.params |= set(arg_names(scope))
-        for st in walk_stmts(fn.body):
+        self._scan(fn.body, [])
+        for scope in extra_scopes:
+            pass
+        # legacy view: latest definition per name (used where no use-site line is available)
+        self.defs = {}
+        for name, lst in self.all.items():
+            self.defs[name] = lst[-1][2]
+            branches = {tuple(r) for _, r, _ in lst}
+            if len(lst) > 1 and len(branches) > 1:
+                # assigned in different branches: ambiguous without a use site
+                self.ambiguous = getattr(self, "ambiguous", set()) | {name}
+
+    def _scan(self, body, ranges):
+        for st in body:
             if isinstance(st, ast.Assign) and len(st.targets) == 1:
-                self._bind(st.targets[0], st.value)
-            elif isinstance(st, ast.With):
-                pass
+                self._bind(st.targets[0], st.value, st.lineno, ranges)
+            elif isinstance(st, ast.AugAssign) and isinstance(st.target, ast.Name):
+                self.multi.add(st.target.id)
             elif isinstance(st, ast.For):
                 if isinstance(st.target, ast.Name):
                     self.loopvars[st.target.id] = st
-            elif isinstance(st, (ast.AugAssign,)) and isinstance(st.target, ast.Name):
-                self.multi.add(st.target.id)
-        # statements inside `with` blocks
-        for node in ast.walk(fn):
-            if isinstance(node, ast.With):
-                for st in walk_stmts(node.body):
-                    if isinstance(st, ast.Assign) and len(st.targets) == 1:
-                        self._bind(st.targets[0], st.value)
+            for field in ("body", "orelse", "finalbody"):
+                sub = getattr(st, field, None)
+                if sub and isinstance(sub, list) and isinstance(sub[0], ast.stmt):
+                    rng = (sub[0].lineno, max(getattr(x, "end_lineno", x.lineno) for x in sub))
+                    # a `with` body always executes: it does not restrict where its definitions are visible
+                    self._scan(sub, ranges if isinstance(st, ast.With) else ranges + [rng])
+            if isinstance(st, ast.Try):
+                for h in st.handlers:
+                    rng = (h.body[0].lineno, max(getattr(x, "end_lineno", x.lineno) for x in h.body))
+                    self._scan(h.body, ranges + [rng])
+            if isinstance(st, (ast.FunctionDef,)):
+                self._scan(st.body, ranges)
 
-    def _bind(self, target, value):
+    def _bind(self, target, value, line, ranges):
         if isinstance(target, ast.Name):
-            if target.id in self.defs:
-                self.multi.add(target.id)
-            self.defs[target.id] = ("expr", value)
+            self.all.setdefault(target.id, []).append((line, list(ranges), ("expr", value)))
         elif isinstance(target, (ast.Tuple, ast.List)):
             for i, t in enumerate(target.elts):
                 if isinstance(t, ast.Name):
-                    if t.id in self.defs:
-                        self.multi.add(t.id)
-                    self.defs[t.id] = ("unpack", value, i)
+                    self.all.setdefault(t.id, []).append((line, list(ranges), ("unpack", value, i)))
                 elif isinstance(t, (ast.Tuple, ast.List)):
                     for j, tt in enumerate(t.elts):
                         if isinstance(tt, ast.Name):
-                            self.defs[tt.id] = ("unpack2", value, i, j)
+                            self.all.setdefault(tt.id, []).append((line, list(ranges), ("unpack2", value, i, j)))
+
+    def lookup(self, name, line):
+        """Definition record reaching a use of `name` at `line`, or None if the name must stay opaque."""
+        if name in self.multi or name not in self.all:
+            return None
+        lst = self.all[name]
+        if line is None:
+            return lst[-1][2] if len(lst) == 1 else None
+        before = [d for d in lst if d[0] < line]
+        if not before:
+            # used before any assignment in source order (e.g. closure defined earlier): unique definition only
+            return lst[0][2] if len(lst) == 1 and lst[0][0] > line else None
+        dline, ranges, rec = before[-1]
+        if all(lo <= line <= hi for lo, hi in ranges):
+            return rec
+        return None
 
 
 STRIP_METHODS = {"astype", "copy", "ravel"}
 STRIP_FUNCS = {"array", "asarray", "ascontiguousarray", "dtype"}
 
 
-def canon(node, defs, keep=(), _depth=0):
-    if _depth > 40:
+def canon(node, defs, keep=(), _depth=0, _seen=frozenset()):
+    if _depth > 200:
         raise AnalysisError("provenance expression too deep")
-    c = lambda n: canon(n, defs, keep, _depth + 1)
+    c = lambda n: canon(n, defs, keep, _depth + 1, _seen)
     if isinstance(node, ast.Name):
         if node.id in keep:
             return node.id
-        if node.id in defs.defs and node.id not in defs.multi:
-            d = defs.defs[node.id]
+        d = defs.lookup(node.id, getattr(node, "lineno", None))
+        if d is not None and id(d) in _seen:
+            return node.id  # cyclic definition (loop-carried value): keep the name
+        if d is not None:
+            c = lambda n: canon(n, defs, keep, _depth + 1, _seen | {id(d)})
             if d[0] == "expr":
                 return c(d[1])
             if d[0] == "unpack":
@@ -100,6 +138,22 @@ def canon(node, defs, keep=(), _depth=0):
         return "(" + ",".join(c(e) for e in node.elts) + ")"
     if isinstance(node, ast.List):
         return "[" + ",".join(c(e) for e in node.elts) + "]"
+    if isinstance(node, ast.BinOp) and isinstance(node.op, (ast.Add, ast.Mult)):
+        # flatten associative-commutative chains and sort the operands
+        ops = []
+
+        def flat(n):
+            if isinstance(n, ast.BinOp) and type(n.op) is type(node.op):
+                flat(n.left)
+                flat(n.right)
+            elif isinstance(n, ast.Name) and n.id not in keep and (defs.lookup(n.id, getattr(n, "lineno", None)) or ("", None))[0] == "expr" \
+                    and isinstance(defs.lookup(n.id, getattr(n, "lineno", None))[1], ast.BinOp) and type(defs.lookup(n.id, getattr(n, "lineno", None))[1].op) is type(node.op):
+                flat(defs.lookup(n.id, getattr(n, "lineno", None))[1])
+            else:
+                ops.append(c(n))
+
+        flat(node)
+        return "(" + ("+" if isinstance(node.op, ast.Add) else "*").join(sorted(ops)) + ")"
     if isinstance(node, ast.BinOp):
         a, b = c(node.left), c(node.right)
         op = type(node.op).__name__
@@ -147,3 +201,17 @@ def enclosing_loops(fn, target):
 
     rec(fn, [])
     return path
+
+
+class _NoDefs:
+    multi = set()
+    defs = {}
+
+    def lookup(self, name, line):
+        return None
+
+
+def canon_text(src):
+    """Canonical form of a source expression given as text (no local definitions): lets expected forms be written
+    as ordinary Python and normalised by the same rules as the code under analysis."""
+    return canon(ast.parse(src, mode="eval").body, _NoDefs())
